@@ -263,6 +263,7 @@ def C09():
             ("c09_rle16_set_fg_fgbg_exact", "SET_FG_FGBG_IMAGE on a later scanline, symbolic mask and foreground", False),
             ("c09_rle16_pair_setfg_exact", "DITHERED_RUN colours and SET_FG_FG_RUN foreground carried exactly (first scanline)", False),
             ("c09_rle16_bg_bg_cross_line", "two consecutive BG_RUNs, the second crossing a scanline end: the foreground pixel is inserted exactly once", True),
+            ("c09_rle16_pair_run_odd_width", "DITHERED_RUN whose colour pair straddles a scanline end (3x3 image, three symbolic colours): the pair phase carries over to the next scanline", True),
             ("c09_rle16_bg_bg_first_line_end", "two consecutive BG_RUNs where the first ends the first scanline exactly at its end: no foreground pixel is inserted (and the same split inside the scanline inserts one)", True),
             ("c09_rle16_mega_fgbg", "MEGA_MEGA FGBG_IMAGE: the 16-bit count is a pixel count (not multiplied by 8), symbolic mask", True),
             ("c09_rle16_mega_set_fg_fgbg", "MEGA_MEGA SET_FG_FGBG_IMAGE: pixel count, symbolic mask and foreground", False),
@@ -639,6 +640,8 @@ def C18():
                        mirjobs.version_table))
     jobs.append(MirJob("c18_mir_announced_sizes", "every counted field of the record layouts (17: AV pair, GCC channel array, licence preamble and blob, demand/confirm active, deactivate all, share headers, fast-path update, bitmap data, colour pointer, capability set): for every field value the size announced to the record container is the function the structure definition gives - v, max(v - k, 0) or 2 * v (SMT, z3 + cvc5)",
                        mirjobs.announce_table({r"server_network_data": mirjobs.GCC_CONF_NATIVE, r"share_|ts_confirm|capability_set": mirjobs.EMIT_NATIVE, r"preamble|license": mirjobs.LICENSE_NATIVE})))
+    jobs.append(MirJob("c18_mir_gcc_block_bodies", "read_conference_create_response: every server block body is read in full (read_exact into a buffer of the announced length) before it is parsed, so padding, newer fields and unknown blocks are skipped exactly",
+                       mirjobs.gcc_block_bodies))
     return Prop("C18", [("core/per.rs", "per.rs"), ("model/data.rs", "data.rs")], jobs, lowerings=["L2"],
                 assumptions=[S1, S6, DEV, "L2 light error payloads"], stubs=[S1],
                 text="Bounded model checking of the real Message impls and PER primitives as encode/decode pairs over their full value domains: bytes written == length(), decode(encode(v)) == v, exact consumption, for every combinator at depth 1 and every PER primitive.",
